@@ -34,8 +34,8 @@ type Env struct {
 	Args     []string
 }
 
-func (e *Env) Quick() bool    { return e.Tier != "thorough" }
-func (e *Env) Expired() bool  { return time.Now().After(e.Deadline) }
+func (e *Env) Quick() bool     { return e.Tier != "thorough" }
+func (e *Env) Expired() bool   { return time.Now().After(e.Deadline) }
 func (e *Env) Mine(k int) bool { return e.NShard <= 1 || k%e.NShard == e.Shard }
 
 // Violation is one property violation.
@@ -159,14 +159,14 @@ func (r *Result) Confirm(n int, first string, f func() string) bool {
 
 // Check is one registered property check.
 type Check struct {
-	ID        string
-	Level     string // evidence level
-	Shards    func(e *Env) int
-	Run       func(e *Env, r *Result)
-	Replay    func(e *Env, raw json.RawMessage) string // "" = does not violate
-	Post      func(e *Env, r *Result)                  // parent, after merge
-	Rule      string
-	Assume    []string
+	ID                          string
+	Level                       string // evidence level
+	Shards                      func(e *Env) int
+	Run                         func(e *Env, r *Result)
+	Replay                      func(e *Env, raw json.RawMessage) string // "" = does not violate
+	Post                        func(e *Env, r *Result)                  // parent, after merge
+	Rule                        string
+	Assume                      []string
 	QuickBudget, ThoroughBudget time.Duration
 }
 
